@@ -28,7 +28,7 @@ Lemma Inv_same_census s s' K :
   (forall o, w_held (sw_weak o) s' = w_held (sw_weak o) s) ->
   Inv s K -> Inv s' K.
 Proof.
-  intros Hh Hl Hs Hw [Hshape Htbl [C1 C2 C3 C4 C5] Hnd Hin].
+  intros Hh Hl Hs Hw [Hshape Htbl [C1 C2 C3 C4 C5 C6] Hnd Hin].
   assert (HWs : forall o, W (sw_strong o) s' K = W (sw_strong o) s K) by (intros o; unfold W; rewrite Hs; reflexivity).
   assert (HWw : forall o, W (sw_weak o) s' K = W (sw_weak o) s K) by (intros o; unfold W; rewrite Hw; reflexivity).
   split.
@@ -40,6 +40,7 @@ Proof.
     + exact C3.
     + exact C4.
     + intros o Ho. rewrite HWs, HWw. apply C5. exact Ho.
+    + exact C6.
   - intros o Ho. rewrite Hs in Ho. rewrite Hh. apply Hnd. exact Ho.
   - rewrite Hh, Hl. exact Hin.
 Qed.
@@ -120,7 +121,7 @@ Proof.
     cbn [heap_of set_reg set_heap mk]. eapply TblInv_same_tables; [|exact Htbl].
     apply same_tables_setb with (b := b); auto. rewrite Hlive. auto.
   - (* counters *)
-    destruct Hcnt as [C1 C2 C3 C4 C5]. split; cbn [heap_of set_reg set_heap mk log].
+    destruct Hcnt as [C1 C2 C3 C4 C5 C6]. split; cbn [heap_of set_reg set_heap mk log].
     + intros y by' m Hy Hm. rewrite HW, sw_strong_weak, N.add_0_r. rewrite Hnth in Hy.
       destruct (Nat.eqb_spec o y) as [<-|Hne]; [|apply (C1 y by' m Hy Hm)].
       injection Hy as <-. rewrite Hst in Hm. apply (C1 o b m Hb Hm).
@@ -137,6 +138,8 @@ Proof.
       destruct (C5 y Hy') as (E1 & E2 & E3 & E4 & E5).
       assert (Hyo : o <> y) by (intros ->; congruence).
       rewrite sw_strong_weak, sw_weak_other by exact Hyo. repeat split; try lia; assumption.
+    + intros y by' Hy Hp. rewrite Hnth in Hy. destruct (Nat.eqb_spec o y) as [<-|Hne]; [|apply (C6 y by' Hy Hp)].
+      injection Hy as <-. rewrite Hst. apply (C6 o b Hb Hp).
   - (* no dangling handle *)
     intros y Hy. rewrite Hheld, sw_strong_weak, N.add_0_r in Hy. cbn [heap_of set_reg set_heap mk]. rewrite Hnth.
     destruct (Hnd y Hy) as (b0 & Hb0 & Hl0).
@@ -405,7 +408,7 @@ Proof.
   - (* tables *)
     cbn [heap_of set_reg set_heap mk]. apply TblInv_snoc; assumption.
   - (* counters *)
-    destruct Hcnt as [C1 C2 C3 C4 C5]. split; cbn [heap_of set_reg set_heap mk log].
+    destruct Hcnt as [C1 C2 C3 C4 C5 C6]. split; cbn [heap_of set_reg set_heap mk log].
     + intros y by' m Hy Hm. rewrite HW by reflexivity.
       apply nth_error_snoc_cases in Hy as [Hy|[-> ->]].
       * assert (Hne : length (heap_of s) <> y).
@@ -423,6 +426,8 @@ Proof.
       rewrite !HW by reflexivity. destruct (C5 y Hy) as (E1 & E2 & E3 & E4 & E5).
       rewrite sw_weak_strong, sw_strong_other by (intros E; apply Hne; symmetry; exact E).
       repeat split; try lia; assumption.
+    + intros y by' Hy Hpos. apply nth_error_snoc_cases in Hy as [Hy|[-> ->]]; [apply (C6 y by' Hy Hpos)|].
+      lia.
   - (* no dangling handle *)
     intros y Hy. rewrite Hheld in Hy by reflexivity. cbn [heap_of set_reg set_heap mk].
     destruct (Nat.eq_dec (length (heap_of s)) y) as [<-|Hne].
